@@ -23,6 +23,9 @@ class _Probe:
     def undecided(self, *a, **k):
         self.calls.append(("undecided", a, k))
 
+    def violated_shape(self, *a, **k):
+        self.calls.append(("violated_shape", a, k))
+
     def check(self, *a, **k):
         self.calls.append(("check", a, k))
 
@@ -80,7 +83,9 @@ def obligation(ctx, f: Func, label: str, spec_src: str, exc: str, *, rename=None
     best = max((n for n, _, _ in scored), default=0)
     mine = [(r, g) for n, r, g in scored if n == best and n > 0]
     if not mine:
-        ctx.violated(f, f.node, label, f"no raise in {f.short} is conditioned on `{bool_key(spec)}`: the documented precondition is not enforced")
+        # (in a function reorganised beyond a small edit - the test moved into a helper that reports what is wrong, say - the
+        # rule no longer knows where to look: it cannot decide; a dropped or weakened guard is a small edit and is reported)
+        ctx.violated_shape(f, f.node, label, f"no raise in {f.short} is conditioned on `{bool_key(spec)}`: the documented precondition is not enforced")
         return False
     wrong_type = [r for r, _ in mine if astx.raise_type(r) != exc]
     first_line = min(r.lineno for r, _ in mine)
